@@ -13,4 +13,4 @@ print('|---|---|---|---|')
 for n, p, needs, det, fm in rows:
     print(f"| `{n}` | {p} | {needs} | {det} |")
 print()
-print(f"{len(rows)} seeded changes, {sum(1 for r in rows if r[4])} of them missed by the check of their own property in the first round and caught after the strengthening described in the row.")
+print(f"{len(rows)} seeded changes; {sum(1 for r in rows if r[4])} of them were missed by the check of their own property when first run against it and are caught after the strengthening described in the row.")
